@@ -173,6 +173,7 @@ type genTriple struct {
 }
 
 const tlsDir = "/repo/internal/tlcodegen/test/tls/"
+const xsDir = "/verif/harness/gen/schemas/" // the harness's own extra schema sets (import cycles, same-named files in several input directories)
 
 func triples() []genTriple {
 	goBase := []string{"--language=go", "--copyrightPath=/repo/COPYRIGHT", "--basicPkgPath=github.com/VKCOM/tl/pkg/basictl", "--basicRPCPath=github.com/VKCOM/tl/pkg/rpc"}
@@ -183,6 +184,11 @@ func triples() []genTriple {
 		{Name: "go-goldmaster-split", Tool: "tl2gen", Args: append(append([]string{}, goBase...), "--split-internal", "--tl2WhiteList=*", "--schemaTimestamp=301822800", "--schemaCommit=abcdefgh", "--pkgPath=github.com/VKCOM/tl/x/gm/tl", "--generateRPCCode", "--generateByteVersions=ch_proxy.,ab.", "--generateRandomCode", "--checkLengthSanity=false"), Inputs: gm, Marker: "meta/meta.go"},
 		{Name: "go-schema-split", Tool: "tl2gen", Args: append(append([]string{}, goBase...), "--split-internal", "--pkgPath=github.com/VKCOM/tl/x/schema/tl", "--generateByteVersions=ch_proxy.,ab."), Inputs: []string{tlsDir + "schema.tl"}, Marker: "meta/meta.go"},
 		{Name: "go-bootstrap-nobasic", Tool: "tl2gen", Args: []string{"--language=go", "--copyrightPath=/repo/COPYRIGHT", "--pkgPath=github.com/VKCOM/tl/x/tlo/tl"}, Inputs: []string{"/repo/internal/tlast/tls.tl"}, Marker: "meta/meta.go"},
+		{Name: "go-cycles-split", Tool: "tl2gen", Args: append(append([]string{}, goBase...), "--split-internal", "--pkgPath=github.com/VKCOM/tl/x/cyc/tl", "--generateRandomCode"), Inputs: []string{xsDir + "cycles.tl"}, Marker: "meta/meta.go"},
+		{Name: "go-cycles-split-bytes", Tool: "tl2gen", Args: append(append([]string{}, goBase...), "--split-internal", "--pkgPath=github.com/VKCOM/tl/x/cyc/tl", "--generateByteVersions=*"), Inputs: []string{xsDir + "cycles.tl", tlsDir + "cases.tl"}, Marker: "meta/meta.go"},
+		{Name: "go-dirs", Tool: "tl2gen", Args: append(append([]string{}, goBase...), "--pkgPath=github.com/VKCOM/tl/x/dirs/tl"), Inputs: []string{xsDir + "dirA", xsDir + "dirB", xsDir + "dirC"}, Marker: "meta/meta.go"},
+		{Name: "canonical-dirs", Tool: "tl2gen", Args: []string{"--language=canonical"}, Inputs: []string{xsDir + "dirA", xsDir + "dirB", xsDir + "dirC"}, Outfile: "dirs_canonical.tl", NoDir: true},
+		{Name: "tlo-dirs", Tool: "tl2gen", Args: []string{"--language=tlo", "--schemaTimestamp=301822800"}, Inputs: []string{xsDir + "dirC", xsDir + "dirA", xsDir + "dirB"}, Outfile: "dirs.tlo", NoDir: true},
 		{Name: "tlo-goldmaster", Tool: "tl2gen", Args: []string{"--language=tlo", "--schemaTimestamp=301822800"}, Inputs: gm, Outfile: "gm.tlo", NoDir: true},
 		{Name: "canonical-goldmaster", Tool: "tl2gen", Args: []string{"--language=canonical"}, Inputs: gm, Outfile: "gm_canonical.tl", NoDir: true},
 		{Name: "html-goldmaster", Tool: "tl2gen", Args: []string{"--language=tljson.html", "--schemaTimestamp=301822800", "--schemaCommit=abcdefgh", "--schemaURL=https://example.org/gm.tl"}, Inputs: gm, Outfile: "tljson.html", NoDir: true},
@@ -191,6 +197,8 @@ func triples() []genTriple {
 		{Name: "cpp-cpp", Tool: "tlgen", Args: []string{"-language=cpp", "--cpp-generate-meta=true", "--cpp-generate-factory=true"}, Inputs: []string{tlsDir + "cpp.tl"}, Marker: "tlgen2_version.txt"},
 		{Name: "cpp-goldmaster", Tool: "tlgen", Args: []string{"-language=cpp", "--cpp-generate-meta=true", "--cpp-generate-factory=true"}, Inputs: []string{tlsDir + "goldmaster.tl"}, Marker: "tlgen2_version.txt"},
 		{Name: "php-legacy-cases", Tool: "tlgen", Args: []string{"--language=php", "--php-rpc-support=true", "--php-serialization-bodies=true", "--php-generate-fetchers=true", "--php-generate-switcher=true", "--php-use-builtin-data-providers=true", "--php-add-type-comments=true", "--php-generate-fetchers-echo-comment=false", "--php-serialization-bodies-whitelist="}, Inputs: []string{tlsDir + "cases.tl"}, Marker: "tlgen2_version.txt"},
+		{Name: "cpp-cycles", Tool: "tlgen", Args: []string{"-language=cpp", "--cpp-generate-meta=true", "--cpp-generate-factory=true"}, Inputs: []string{xsDir + "cycles.tl"}, Marker: "tlgen2_version.txt"},
+		{Name: "cpp-dirs", Tool: "tlgen", Args: []string{"-language=cpp"}, Inputs: []string{xsDir + "dirB", xsDir + "dirA", xsDir + "dirC"}, Marker: "tlgen2_version.txt"},
 		{Name: "tlo-legacy-cases", Tool: "tlgen", Args: []string{"--language=cpp"}, Inputs: []string{tlsDir + "cases.tl"}, Marker: "tlgen2_version.txt", Outfile: "+tlo"},
 	}
 	var out []genTriple
